@@ -184,7 +184,7 @@ func verifLemmaMaxBodyTight(c *channelInstance, m *Message, chunkSize int, chunk
 //@ func (*SecureChannel).nextRequestID
 //@   props C18
 //@   requires s != nil
-//@   assigns s.requestID, held(&s.requestIDMu)
+//@   assigns s.requestID, held(&s.requestIDMu), released(&s.requestIDMu)
 //@   ensures [C18:nonzero] result != 0
 //@   ensures [C18:next] (old(s.requestID) != 4294967295 ==> result == old(s.requestID) + 1) &&
 //@                      (old(s.requestID) == 4294967295 ==> result == 1)
@@ -195,7 +195,7 @@ func verifLemmaMaxBodyTight(c *channelInstance, m *Message, chunkSize int, chunk
 //@ func (*SecureChannel).popHandler
 //@   props C18
 //@   requires s != nil
-//@   assigns map(s.handlers), held(&s.handlersMu)
+//@   assigns map(s.handlers), held(&s.handlersMu), released(&s.handlersMu)
 //@   ensures [C18:pop-found] result1 == old(in(reqID, s.handlers))
 //@   ensures [C18:pop-value] result1 ==> result0 == old(s.handlers[reqID])
 //@   ensures [C18:pop-removed] !in(reqID, s.handlers)
